@@ -24,8 +24,10 @@ def permitted(where, code, kind, want, chain=()):
     if "argparse" in kinds:
         if code == "default-invented-zero":
             return True  # required option without default acquires the zero value
-        if code == "default-lost" and e is not None and _is_none(e.get("default")) and (e.get("typ") or "").startswith("Optional"):
+        if code == "default-lost" and e is not None and "default" in e and _is_none(e.get("default")):
             return True  # Optional <-> not required: a None default is carried by optionality
+        if code == "typ-changed" and e is not None and "default" in e and _is_none(e["default"]):
+            return True  # a None default is expressed as optionality: typ becomes Optional[typ]
         if code == "ret-lost" and "default" not in ((want.get("returns") or {}).get("return_type") or {}):
             return True  # only a return entry that carries a default is representable
     return False
@@ -75,6 +77,9 @@ TOL = {
     and isinstance(_entry(ir, w).get("default"), str) and o.get("emit_default_doc", True),
     # google: a docstring with only a Returns section is read as prose
     "KF-RT-google-retonly": lambda k, w, c, ir, o: k == "google" and not ir["params"] and w == "returns",
+    # class emitter: an explicit None default of a scalar-typed parameter is replaced by the type's zero value
+    "KF-RT-class-none-to-zero": lambda k, w, c, ir, o: k == "class" and c == "default-value" and "default" in _entry(ir, w)
+    and _is_none(_entry(ir, w)["default"]) and _entry(ir, w).get("typ") in ZERO,
     # google: a parameter line that ends with ':' (prose ending in a colon) is taken for a section header
     "KF-RT-google-colon-end": lambda k, w, c, ir, o: k == "google" and c in ("names", "summary")
     and any(i >= 1 and (e.get("doc") or "").endswith(":") for i, e in enumerate(ir["params"].values())),
